@@ -114,10 +114,10 @@ Definition C03_model (c : text_case) : list (res (list N)) :=
 
 (* ------------------------------------------------------------------ *)
 (* Histories of renders whose render-time callbacks change cells
-   (Model/TextPass.v): the case carries the cells with their successive
+   (Model/TextLive.v): the case carries the cells with their successive
    contents, the registrations in registration order, and what each of the
    successive Render() calls through the one wrapper returned. *)
-From Tab Require Export Model.TextPass Spec.TextPassSpec.
+From Tab Require Export Model.TextLive Spec.TextPassSpec.
 
 (* a live cell from its successive contents, the first being what it holds
    when the history starts; never measured yet *)
